@@ -563,6 +563,36 @@ theorem C05_readData2_skeleton_partial (lookup : IS → Nat) (rd : IS → Out Lo
     exact Nat.mul_le_mul_left _ (by omega)
   omega
 
+/-- The one-record slip as a stated bound.  After `fixes/C05-14 … C05-19` a scan that starts behind a record's own `;`
+(the `;` was the character `STEPread` gave up on: `#k=BARE;`) ends at the *next* `;` (`C05_recoveryScan_stays_in_record` with
+`c = ';'`): the record reader may pass the end of its record, but never the end of the next one.  For every record reader
+that is a stage and obeys that weaker rule (`SkipInstance` twice from the record's start), one `ReadInstance` — with the
+concrete `ReadComment`, `ReadTokenSeparator`, `SkipInstance` — ends, never un-reads, and costs at most what the instance
+loop's potential pays for its own record plus `K + 8`, plus four steps per byte of the **next** record, plus the comment
+reserve once when the input ends there: cost ≤ 2 records. -/
+theorem C05_readInstance_slip_partial (lookup : IS → Nat) (rd : IS → Out LoopRes) (K D : Nat) (s : IS)
+    (hrd : StageOk C05.readCommentIters rd K (s.rest.length + 1))
+    (hstay2 : ∀ x r rs rs2 sk, x.m ≤ s.rest.length + 1 → rd x = .ok r →
+      skipInstance C05.skipInstanceSkipsComments C05.readCommentIters (s.rest.length + 2) { x with skipws := sk } = .ok rs →
+      skipInstance C05.skipInstanceSkipsComments C05.readCommentIters (s.rest.length + 2) rs.s = .ok rs2 → rs2.s.m ≤ r.s.m) :
+    ∃ r, readInstanceSkel lookup rd
+          (readComment C05.skipInstanceSkipsComments C05.readCommentIters (s.rest.length + 2))
+          (readTokenSeparator C05.skipInstanceSkipsComments C05.readCommentIters (s.rest.length + 2))
+          (skipInstance C05.skipInstanceSkipsComments C05.readCommentIters (s.rest.length + 2)) s = .ok r ∧
+      r.s.m ≤ s.m ∧
+      ∀ nx, skipInstance C05.skipInstanceSkipsComments C05.readCommentIters (s.rest.length + 2) r.s = .ok nx →
+        r.steps + dataPot D C05.readCommentIters r.s ≤
+          dataPot D C05.readCommentIters s + (K + 8) + 4 * (r.s.m - nx.s.m) + (if nx.s.m = 0 then C05.readCommentIters else 0) := by
+  have hm := IS.m_le s
+  generalize hF : s.rest.length + 2 = F at *
+  have hF1 : s.rest.length + 1 = F - 1 := by omega
+  rw [hF1] at hrd hstay2
+  obtain ⟨ht, hs, _⟩ := stages C05.skipInstanceSkipsComments C05.readCommentIters F (by omega)
+  have hrc : StageOk C05.readCommentIters (readComment C05.skipInstanceSkipsComments C05.readCommentIters F) 1 (F - 1) := by
+    intro t htB
+    exact readComment_stage C05.readCommentIters _ C05.readCommentIters (Nat.le_refl _) F t (by omega)
+  exact readInstanceSkel_slip (lookup := lookup) hrc ht hs hrd hstay2 s (by omega)
+
 /-- `ReadComment` on any stream (called by `ReadInstance` in front of the instance id): ends with fuel `|bytes| + 2`, never
 un-reads, its steps paid by what it consumes — a character that does not start a comment is put back -/
 theorem C05_steps_readComment (s : IS) :
